@@ -46,17 +46,17 @@ def confirm(src):
     obs['confirmed'] = obs['demo_without_patch_exit'] == 0 and obs['tests_exit'] == 0 and obs['demo_with_patch_exit'] != 0
     return obs
 
-def do_import():
+def do_import(root='/tmp/wt', tag=''):
     os.makedirs(SEEDED, exist_ok=True)
     jobs = []
-    for pid in sorted(os.listdir('/tmp/wt')):
-        out = os.path.join('/tmp/wt', pid, 'out')
+    for pid in sorted(os.listdir(root)):
+        out = os.path.join(root, pid, 'out')
         if not os.path.isdir(out):
             continue
         for k in sorted(os.listdir(out)):
             src = os.path.join(out, k)
             if os.path.isdir(src) and all(os.path.exists(os.path.join(src, f)) for f in ('patch.diff', 'demo.py', 'meta.json')):
-                dst = os.path.join(SEEDED, '%s-%s' % (pid, k))
+                dst = os.path.join(SEEDED, '%s-%s%s' % (pid, tag, k))
                 if not os.path.exists(dst):
                     jobs.append((pid, k, src, dst))
     with concurrent.futures.ThreadPoolExecutor(max_workers=6) as ex:
@@ -114,7 +114,7 @@ def do_run(only=None):
 if __name__ == '__main__':
     os.makedirs(SCR, exist_ok=True)
     if sys.argv[1] == 'import':
-        do_import()
+        do_import(*(sys.argv[2:4]))
     else:
         do_run(sys.argv[2] if len(sys.argv) > 2 else None)
     shutil.rmtree(SCR, ignore_errors=True)
